@@ -477,17 +477,20 @@ class Forcing(BaseForce):
         # Other forcing, read while the file with the prestep frame is open
         for name in self.extra_forcing:
             self.fields[name] = self._read_field(name, prestep)
-        self.fields["u_new"], self.fields["v_new"] = self._read_velocity(nextstep)
-        self.fields["dU"] = (self.fields["u_new"] - self.fields["u"]) / stepdiff0
-        self.fields["dV"] = (self.fields["v_new"] - self.fields["v"]) / stepdiff0
 
         if prestep == 0:
+            # Frame at the start, the first update takes it as a frame step
             self.fields["u_new"] = self.fields["u"].copy()
             self.fields["v_new"] = self.fields["v"].copy()
-
-        # Interpolate to time step = -1
-        self.fields["u"] = self.fields["u"] - (prestep + 1) * self.fields["dU"]
-        self.fields["v"] = self.fields["v"] - (prestep + 1) * self.fields["dV"]
+            self.fields["dU"] = 0.0 * self.fields["u"]
+            self.fields["dV"] = 0.0 * self.fields["v"]
+        else:
+            self.fields["u_new"], self.fields["v_new"] = self._read_velocity(nextstep)
+            self.fields["dU"] = (self.fields["u_new"] - self.fields["u"]) / stepdiff0
+            self.fields["dV"] = (self.fields["v_new"] - self.fields["v"]) / stepdiff0
+            # Interpolate to time step = -1
+            self.fields["u"] = self.fields["u"] - (prestep + 1) * self.fields["dU"]
+            self.fields["v"] = self.fields["v"] - (prestep + 1) * self.fields["dV"]
 
         self.steps = steps
         # self.files = files
@@ -520,35 +523,23 @@ class Forcing(BaseForce):
             # Read other forcing variables with no time interpolation
             for name in self.extra_forcing:
                 self.fields[name] = self._read_field(name, step)
-            # self.force_particles(X, Y)
-        else:
-            if step - 1 in self.steps:  # Need new fields
-                i = self.steps.index(step - 1)
+            # Read the next frame and prepare the increments for the new interval
+            i = self.steps.index(step)
+            if i + 1 < len(self.steps) and interpolate_velocity_in_time:
                 nextstep = self.steps[i + 1]
                 stepdiff = self.stepdiff[i]
                 self.fields["u_new"], self.fields["v_new"] = self._read_velocity(
                     nextstep
                 )
-                # for name in self.extra_forcing:
-                #    self[name + "new"] = self._read_field(name, nextstep)
-                if interpolate_velocity_in_time:
-                    self.fields["dU"] = (
-                        self.fields["u_new"] - self.fields["u"]
-                    ) / stepdiff
-                    self.fields["dV"] = (
-                        self.fields["v_new"] - self.fields["v"]
-                    ) / stepdiff
-                # if interpolate_extra_forcing_in_time:
-                #    for name in self.extra_forcing:
-                #        self["d" + name] = (self[name + "new"] - self[name]) / stepdiff
-
-            # "Ordinary" time step (including self.steps+1)
-            if interpolate_velocity_in_time:
-                self.fields["u"] += self.fields["dU"]
-                self.fields["v"] += self.fields["dV"]
-            # if interpolate_extra_forcing_in_time:
-            #    for name in self.extra_forcing:
-            #        self[name] += self["d" + name]
+                self.fields["dU"] = (self.fields["u_new"] - self.fields["u"]) / stepdiff
+                self.fields["dV"] = (self.fields["v_new"] - self.fields["v"]) / stepdiff
+            else:
+                self.fields["dU"] = 0.0 * self.fields["u"]
+                self.fields["dV"] = 0.0 * self.fields["v"]
+        elif interpolate_velocity_in_time:
+            # "Ordinary" time step between forcing frames
+            self.fields["u"] += self.fields["dU"]
+            self.fields["v"] += self.fields["dV"]
 
         # Update forcing values at particles
         # print("force_particles")
